@@ -21,7 +21,8 @@ func init() {
 			"dispatches in parseArg either to an explicit case or is one of the three Target/SimpleName/SuperName kinds handled by the default, and exactly the " +
 			"types parseArg routes to parseSimpleArg have a non-failing case there; (R3) every named entry (except the internal scope block) has NameString as its " +
 			"first non-PkgLen argument, every deferred entry starts with PkgLen, every TermList/FieldList argument is last, and Method's arguments are " +
-			"[PkgLen, NameString, ByteData, TermList] (the argument-count flags are attached argument #1).",
+			"[PkgLen, NameString, ByteData, TermList] (the argument-count flags are attached argument #1); (R4) multi-table loads start from a clean per-table state: every Parser " +
+			"field written while a table is parsed is re-initialised by init/resetState, which ParseAML calls first on every path.",
 		EnumRule:    "one obligation per table (exhaustive over its 256 / N entries) and per opcode / argument-type constant",
 		Assumptions: []string{"scoping, relocation, forward references and multi-table loads (the behavioural core of C11) are not decided; honest size of this claim: small"},
 		Controls: []Control{
@@ -33,6 +34,7 @@ func init() {
 			{Name: "extended map entry points at the wrong row", File: "kernel/device/acpi/aml/parser_opcode_table.go", Old: "/*0x80 - 0x87*/ 0x68, 0x69, 0x6a, 0x6b, 0x6c, 0x6d, 0x6e, 0x6f,\n\t/*0x88 - 0x8f*/ 0x70,", New: "/*0x80 - 0x87*/ 0x68, 0x69, 0x6b, 0x6a, 0x6c, 0x6d, 0x6e, 0x6f,\n\t/*0x88 - 0x8f*/ 0x70,", Expect: "C11.R1"},
 			{Name: "internal opcode formula off by one", File: "kernel/device/acpi/aml/parser_opcode_table.go", Old: "index = uint8(len(pOpcodeTable) + int(opcode) - 0x1fe)", New: "index = uint8(len(pOpcodeTable) + int(opcode) - 0x1fd)", Expect: "C11.R1"},
 			{Name: "Method flags argument moved", File: "kernel/device/acpi/aml/parser_opcode_table.go", Old: "makeArg4(pArgTypePkgLen, pArgTypeNameString, pArgTypeByteData, pArgTypeTermList)}", New: "makeArg4(pArgTypePkgLen, pArgTypeByteData, pArgTypeNameString, pArgTypeTermList)}", Expect: "C11.R3"},
+			{Name: "parse mode survives into the next table", File: "kernel/device/acpi/aml/parser.go", Old: "\tp.mode = parseModeSkipAmbiguousBlocks\n", New: "", Expect: "C11.R4"},
 			{Name: "FieldList routed to the target parser", File: "kernel/device/acpi/aml/parser.go", Old: "\tcase pArgTypeFieldList:\n\t\treturn nil, p.parseFieldElements(curObj)\n", New: "", Expect: "C11.R2"},
 		},
 	})
@@ -457,4 +459,142 @@ func runC11(c *Ctx) {
 	c.check(len(eNamed) == 0 && nNamed > 0, "C11.R3", "named-entries aml.pOpcodeTable", fmt.Sprintf("%d named entries start with a NameString", nNamed), strings.Join(eNamed, "; "))
 	c.check(len(eDefer) == 0 && nDefer > 0, "C11.R3", "deferred-entries aml.pOpcodeTable", fmt.Sprintf("%d deferred entries start with PkgLen", nDefer), strings.Join(eDefer, "; "))
 	c.check(len(eLast) == 0, "C11.R3", "list-args-last aml.pOpcodeTable", "PkgLen only first, TermList/FieldList/ByteList only last", strings.Join(eLast, "; "))
+
+	// ================= R4 =================
+	c11PerTableState(c)
 }
+
+// C11.R4: every Parser field that is written while a table is parsed is
+// re-initialised when the next table is started (multi-table loads start from a
+// clean per-table state). Frame condition: fields stored outside the
+// constructor / init / resetState  is a subset of  fields stored by init /
+// resetState on every path of ParseAML's entry.
+func c11PerTableState(c *Ctx) {
+	m := c.K
+	const aml = "device/acpi/aml"
+	c.floor("C11.R4", 1)
+	parserT := m.lookupType(aml, "Parser")
+	parse := m.lookupMethod(aml, "Parser", "ParseAML")
+	initM := m.lookupMethod(aml, "Parser", "init")
+	reset := m.lookupMethod(aml, "Parser", "resetState")
+	ctor := m.lookupFunc(aml, "NewParser")
+	if parserT == nil || parse == nil || initM == nil || reset == nil || ctor == nil {
+		c.unresolved("C11.R4", "aml.Parser / ParseAML / init / resetState / NewParser")
+		return
+	}
+	st := parserT.Underlying().(*types.Struct)
+	isParserField := map[*types.Var]bool{}
+	for i := 0; i < st.NumFields(); i++ {
+		isParserField[st.Field(i)] = true
+	}
+	// the first Parser field selected on the path of a store (p.r.offset -> r)
+	firstField := func(s *ssa.Store) *types.Var {
+		for _, f := range storedFieldsAll(accessPath(s.Addr)) {
+			if isParserField[f] {
+				return f
+			}
+		}
+		return nil
+	}
+	reinit := map[*types.Var]bool{}
+	// stores in init/resetState (and, for the embedded reader, its Init method called from init)
+	for _, fn := range []*ssa.Function{initM, reset} {
+		g := newIG(m, fn, nil)
+		for n, in := range g.Ins {
+			if s, ok := in.(*ssa.Store); ok {
+				if f := firstField(s); f != nil {
+					// on every path to the function's returns
+					all := true
+					for _, rn := range g.Returns() {
+						if ok, _ := g.MustPassBefore(rn, func(k int) bool { return k == n }); !ok {
+							all = false
+						}
+					}
+					if all {
+						reinit[f] = true
+					}
+				}
+			}
+			// a method call on a field value (p.r.Init(...)) re-initialises that field
+			if cc := callCommon(in); cc != nil && len(cc.Args) > 0 {
+				if cal := m.callee(cc); cal != nil && cal.Name() == "Init" {
+					for _, f := range pathFields(accessPath(cc.Args[0])) {
+						if isParserField[f] {
+							reinit[f] = true
+						}
+					}
+				}
+			}
+		}
+	}
+	// init/resetState run first in ParseAML
+	g := newIG(m, parse, nil)
+	firstOK := false
+	for _, n := range g.callNodes(initM) {
+		// nothing else is called before it
+		before := false
+		for k, in := range g.Ins {
+			if _, isCall := in.(*ssa.Call); isCall && k != n && g.Reach(g.Succ[k], nil, nil)[n] {
+				before = true
+			}
+		}
+		dom := true
+		for _, rn := range g.Returns() {
+			if ok, _ := g.MustPassBefore(rn, func(k int) bool { return k == n }); !ok {
+				dom = false
+			}
+		}
+		firstOK = !before && dom
+	}
+	gi := newIG(m, initM, nil)
+	resetCalled := len(gi.callNodes(reset)) > 0
+	if !firstOK || !resetCalled {
+		c.fail("C11.R4", "per-table-state "+m.fnName(parse), "ParseAML does not start by calling init (which must call resetState) on every path", m.pos(parse.Pos()))
+		return
+	}
+	// fields written while parsing
+	written := map[*types.Var][]string{}
+	pkg := m.pkg(aml)
+	for _, fn := range m.Funcs {
+		if fn.Pkg != pkg || fn == ctor || fn == initM || fn == reset {
+			continue
+		}
+		for _, b := range fn.Blocks {
+			for _, in := range b.Instrs {
+				if s, ok := in.(*ssa.Store); ok {
+					p := accessPath(s.Addr)
+					if len(p) == 0 {
+						continue
+					}
+					// only stores rooted at a *Parser
+					rootIsParser := false
+					if pr, ok := p[0].V.(*ssa.Parameter); ok && typeIs(pr.Type(), parserT) {
+						rootIsParser = true
+					}
+					if !rootIsParser {
+						continue
+					}
+					if f := firstField(s); f != nil {
+						written[f] = append(written[f], m.fnName(fn))
+						c.Evals++
+					}
+				}
+			}
+		}
+	}
+	var stale []string
+	var names []string
+	for f, where := range written {
+		names = append(names, f.Name())
+		if !reinit[f] {
+			stale = append(stale, fmt.Sprintf("%s (written by %s)", f.Name(), strings.Join(uniq(where), ", ")))
+		}
+	}
+	sort.Strings(stale)
+	sort.Strings(names)
+	c.check(len(stale) == 0, "C11.R4", "per-table-state "+m.fnName(parse), "every Parser field written while parsing ("+strings.Join(names, ", ")+") is re-initialised by init/resetState at the start of each table",
+		"per-table parser state survives into the next table: "+strings.Join(stale, "; ")+" - a later table is parsed with the state the previous one left behind", m.pos(reset.Pos()))
+}
+
+// storedFieldsAll lists every struct field selected on an address path.
+func storedFieldsAll(p []PE) []*types.Var { return pathFields(p) }
